@@ -45,6 +45,21 @@ STRATA = {
     "msa": (1500, 60000),
     "pairwise": (1000, 40000),
 }
+# functions that must leave their arguments untouched (vf.core.PurityMonitor; '!' = the object itself is watched too)
+PURE = [
+    "biotite.sequence.align.alignment:Alignment.__getitem__!",
+    "biotite.sequence.align.alignment:get_codes",
+    "biotite.sequence.align.alignment:get_symbols",
+    "biotite.sequence.align.alignment:remove_gaps",
+    "biotite.sequence.align.alignment:remove_terminal_gaps",
+    "biotite.sequence.align.alignment:find_terminal_gaps",
+    "biotite.sequence.align.alignment:get_sequence_identity",
+    "biotite.sequence.align.alignment:get_pairwise_sequence_identity",
+    "biotite.sequence.align.alignment:score",
+    "biotite.sequence.align.cigar:write_alignment_to_cigar",
+    "biotite.sequence.io.fasta.convert:set_alignment",
+    "biotite.sequence.align.multiple:align_multiple",
+]
 REQUIRED_ORACLES = [
     "invariant_hook", "produced_alignment_valid",
     "strings_vs_model", "strings_roundtrip", "codes_vs_model", "symbols_vs_model", "fasta_roundtrip",
